@@ -1,6 +1,8 @@
 import TrippyVerif.Model.Wire
 import TrippyVerif.Lemmas.Checksum
 import TrippyVerif.Lemmas.Ext
+import TrippyVerif.Props.C13
+import TrippyVerif.Spec.Decode
 /-
 Helper lemmas for the wire layer (C04 receive half, C11, C02).
 -/
@@ -280,5 +282,191 @@ theorem recvIcmp6_ne_panic (c : ChanCfg) (hc : c.AddrOk) (bytes src : Buf) (hs :
     split
     · simp
     · exact extractProbeResp_ne_panic c hc _ _ h
+
+/-! ## send side (C11) -/
+
+open TV.Rfc1071 TV.Decode
+
+theorem len4 (l : Buf) (h : l.length = 4) : ∃ a b c d, l = [a, b, c, d] := by
+  match l, h with
+  | [a, b, c, d], _ => exact ⟨a, b, c, d, rfl⟩
+
+theorem makeIpv4_decode (c : ChanCfg) (hs : c.src.length = 4) (hd : c.dst.length = 4)
+    (proto : UInt8) (ttl ident : Nat) (payload : Buf)
+    (hl : 20 + payload.length ≤ 1024) (ht : ttl ≤ 255) (hi' : ident < 65536) :
+    ∃ bytes, makeIpv4 c proto ttl ident payload = .ok bytes ∧ bytes.length = 20 + payload.length ∧
+      decodeIPv4 bytes = some
+        ({ version := 4, ihl := 5, tos := c.tos.toNat, totalLength := 20 + payload.length,
+           ident := ident, reserved := false, df := true, mf := false, fragOffset := 0, ttl := ttl,
+           proto := proto.toNat, headerChecksum := 0, src := c.src, dst := c.dst, options := [] },
+         payload) := by
+  obtain ⟨s0, s1, s2, s3, hs⟩ := len4 _ hs
+  obtain ⟨d0, d1, d2, d3, hd⟩ := len4 _ hd
+  have h1 : ¬ (20 + payload.length > 1024) := by omega
+  have hm : makeIpv4 c proto ttl ident payload = .ok ([0x45, c.tos, hi (20 + payload.length),
+      lo (20 + payload.length), hi ident, lo ident, hi Consts.net4_DONT_FRAGMENT,
+      lo Consts.net4_DONT_FRAGMENT, UInt8.ofNat ttl, proto, 0, 0] ++ c.src ++ c.dst ++ payload) := by
+    have h2 : ¬ (1024 < 20 + payload.length) := by omega
+    simp [makeIpv4, MAX_PACKET_SIZE, Consts.channel_MAX_PACKET_SIZE, h2]
+  refine ⟨_, hm, ?_, ?_⟩
+  · simp [hs, hd]; omega
+  · simp only [hs, hd, List.cons_append, List.nil_append, decodeIPv4]
+    have e1 : u16 (hi (20 + payload.length)) (lo (20 + payload.length)) = 20 + payload.length :=
+      hi_lo _ (by omega)
+    have e2 : u16 (hi ident) (lo ident) = ident := hi_lo _ hi'
+    have e3 : (UInt8.ofNat ttl).toNat = ttl := ofNat_toNat _ (by omega)
+    simp only [e1, e2, e3]
+    simp [hi, lo, Consts.net4_DONT_FRAGMENT, u16]
+
+/-- the RFC pseudo header of the configured family -/
+def pseudoHdr (c : ChanCfg) (proto : UInt8) (len : Nat) : Buf :=
+  if c.v6 then pseudo6 c.src c.dst proto len else pseudo4 c.src c.dst proto len
+
+theorem pseudoHdr_even (c : ChanCfg) (hc : c.AddrOk) (proto : UInt8) (len : Nat) :
+    (pseudoHdr c proto len).length % 2 = 0 := by
+  unfold pseudoHdr ChanCfg.AddrOk at *
+  split <;> rename_i hv <;> simp only [hv, if_true] at hc
+  · exact Cksum.pseudo6_length_even _ _ hc.1 hc.2
+  · exact Cksum.pseudo4_length_even _ _ (by simpa using hc.1) (by simpa using hc.2)
+
+/-- the UDP packet `make_udp_packet` builds, given its checksum -/
+def udpPkt (sp dp ck : Nat) (payload : Buf) : Buf :=
+  hi sp :: lo sp :: hi dp :: lo dp :: hi (8 + payload.length) :: lo (8 + payload.length) ::
+    hi ck :: lo ck :: payload
+
+theorem makeUdp_spec (c : ChanCfg) (hc : c.AddrOk) (sp dp : Nat) (payload : Buf)
+    (h : 8 + payload.length ≤ maxUdpBuf c) :
+    ∃ ck, ck ≤ 0xFFFF ∧ makeUdp c sp dp payload = .ok (ck, udpPkt sp dp ck payload) ∧
+      verifies (pseudoHdr c 17 (8 + payload.length) ++ udpPkt sp dp ck payload) := by
+  have hb := maxUdpBuf_le c
+  let d : Buf := hi sp :: lo sp :: hi dp :: lo dp :: hi (8 + payload.length) ::
+      lo (8 + payload.length) :: 0 :: 0 :: payload
+  have hdl : d.length = 8 + payload.length := by simp [d]; omega
+  have hlen : d.length ≤ 65535 := by omega
+  have hf : 2 * 3 + 1 < d.length := by omega
+  have hput : ∀ ck, putField 3 ck d = udpPkt sp dp ck payload := by
+    intro ck; simp [d, putField, udpPkt, hi, lo]
+  unfold makeUdp
+  simp only [l4Hdr]
+  rw [if_neg (by omega)]
+  unfold ChanCfg.AddrOk at hc
+  unfold pseudoHdr
+  by_cases hv : c.v6 = true
+  · rw [if_pos hv] at hc
+    obtain ⟨ck, h1, h2, h3⟩ := C13.udp_ipv6_checksum_verifies d c.src c.dst hc.1 hc.2 hlen hf
+    refine ⟨ck, h2, ?_, ?_⟩
+    · simp only [hv, if_true]; rw [show (hi sp :: lo sp :: hi dp :: lo dp :: hi (8 + payload.length) ::
+        lo (8 + payload.length) :: 0 :: 0 :: payload) = d from rfl, h1]; rfl
+    · simp only [hv, if_true]; rw [← hput, ← hdl]; exact h3
+  · rw [if_neg hv] at hc
+    have hv' : c.v6 = false := by simpa using hv
+    obtain ⟨ck, h1, h2, h3⟩ := C13.udp_ipv4_checksum_verifies d c.src c.dst hc.1 hc.2 hlen hf
+    refine ⟨ck, h2, ?_, ?_⟩
+    · simp only [hv', Bool.false_eq_true, if_false]; rw [show (hi sp :: lo sp :: hi dp :: lo dp :: hi (8 + payload.length) ::
+        lo (8 + payload.length) :: 0 :: 0 :: payload) = d from rfl, h1]; rfl
+    · simp only [hv', Bool.false_eq_true, if_false]; rw [← hput, ← hdl]; exact h3
+
+
+
+/-- the Echo Request `make_echo_request_icmp_packet` builds, given its checksum -/
+def echoPkt (c : ChanCfg) (ck ident seq n : Nat) : Buf :=
+  (if c.v6 then 128 else 8) :: 0 :: hi ck :: lo ck :: hi ident :: lo ident :: hi seq :: lo seq ::
+    List.replicate n c.pattern
+
+theorem maxIcmp_facts (c : ChanCfg) : maxIcmpPayload c + 8 ≤ maxIcmpBuf c ∧ maxIcmpBuf c ≤ 1004 := by
+  unfold maxIcmpPayload maxIcmpBuf; split <;> decide
+
+theorem makeEchoRequest_spec (c : ChanCfg) (hc : c.AddrOk) (ident seq n : Nat)
+    (h : n ≤ maxIcmpPayload c) :
+    ∃ ck, ck ≤ 0xFFFF ∧ makeEchoRequest c ident seq n = .ok (echoPkt c ck ident seq n) ∧
+      verifies ((if c.v6 then pseudoHdr c 58 (8 + n) else []) ++ echoPkt c ck ident seq n) := by
+  have hm := maxIcmp_facts c
+  unfold makeEchoRequest
+  simp only [l4Hdr]
+  rw [if_neg (by omega), if_neg (by omega)]
+  unfold ChanCfg.AddrOk at hc
+  unfold pseudoHdr echoPkt
+  by_cases hv : c.v6 = true
+  · rw [if_pos hv] at hc
+    let d : Buf := 128 :: 0 :: 0 :: 0 :: hi ident :: lo ident :: hi seq :: lo seq :: List.replicate n c.pattern
+    have hdl : d.length = 8 + n := by simp [d]; omega
+    obtain ⟨ck, h1, h2, h3⟩ := C13.icmp_ipv6_checksum_verifies d c.src c.dst hc.1 hc.2 (by omega) (by omega)
+    refine ⟨ck, h2, ?_, ?_⟩
+    · simp only [hv, if_true]
+      rw [show (128 :: 0 :: 0 :: 0 :: hi ident :: lo ident :: hi seq :: lo seq :: List.replicate n c.pattern) = d from rfl, h1]
+      rfl
+    · simp only [hv, if_true]
+      have : putField 1 ck d = 128 :: 0 :: hi ck :: lo ck :: hi ident :: lo ident :: hi seq :: lo seq :: List.replicate n c.pattern := by
+        exact (Cksum.putField_cons2_succ 0 ck _ _ _).trans (by rw [Cksum.putField_cons2_zero]; rfl)
+      rw [← this, ← hdl]; exact h3
+  · have hv' : c.v6 = false := by simpa using hv
+    let d : Buf := 8 :: 0 :: 0 :: 0 :: hi ident :: lo ident :: hi seq :: lo seq :: List.replicate n c.pattern
+    have hdl : d.length = 8 + n := by simp [d]; omega
+    obtain ⟨ck, h1, h2, h3⟩ := C13.icmp_ipv4_checksum_verifies d (by omega) (by omega)
+    refine ⟨ck, h2, ?_, ?_⟩
+    · simp only [hv', Bool.false_eq_true, if_false]
+      rw [show (8 :: 0 :: 0 :: 0 :: hi ident :: lo ident :: hi seq :: lo seq :: List.replicate n c.pattern) = d from rfl, h1]
+      rfl
+    · simp only [hv', Bool.false_eq_true, if_false, List.nil_append]
+      have : putField 1 ck d = 8 :: 0 :: hi ck :: lo ck :: hi ident :: lo ident :: hi seq :: lo seq :: List.replicate n c.pattern := by
+        exact (Cksum.putField_cons2_succ 0 ck _ _ _).trans (by rw [Cksum.putField_cons2_zero]; rfl)
+      rw [← this]; exact h3
+
+/-- swapping two aligned 16-bit words does not change the one's complement sum -/
+theorem verifies_swap (pre : Buf) (hpre : pre.length % 2 = 0) (a b c d e f g h i j : UInt8) :
+    verifies (pre ++ [a, b, c, d, e, f, g, h, i, j]) →
+    verifies (pre ++ [a, b, c, d, e, f, i, j, g, h]) := by
+  unfold verifies
+  rw [Cksum.wordSum_append_even _ _ hpre, Cksum.wordSum_append_even _ _ hpre]
+  have e : wordSum [a, b, c, d, e, f, i, j, g, h] = wordSum [a, b, c, d, e, f, g, h, i, j] := by
+    simp only [wordSum]; omega
+  rw [e]; exact id
+
+
+theorem decodeIcmpEcho_echoPkt (c : ChanCfg) (ck ident seq n : Nat) (h1 : ck < 65536)
+    (h2 : ident < 65536) (h3 : seq < 65536) :
+    decodeIcmpEcho (echoPkt c ck ident seq n) =
+      some { type := if c.v6 then 128 else 8, code := 0, checksum := ck, ident := ident, seq := seq,
+             data := List.replicate n c.pattern } := by
+  have e1 : u16 (hi ck) (lo ck) = ck := hi_lo _ h1
+  have e2 : u16 (hi ident) (lo ident) = ident := hi_lo _ h2
+  have e3 : u16 (hi seq) (lo seq) = seq := hi_lo _ h3
+  simp only [echoPkt, decodeIcmpEcho, e1, e2, e3]
+  cases c.v6 <;> simp
+
+theorem decodeUDP_udpPkt (sp dp ck : Nat) (payload : Buf) (h1 : sp < 65536) (h2 : dp < 65536)
+    (h3 : ck < 65536) (h4 : 8 + payload.length < 65536) :
+    decodeUDP (udpPkt sp dp ck payload) =
+      some ({ srcPort := sp, dstPort := dp, length := 8 + payload.length, checksum := ck }, payload) := by
+  have e1 : u16 (hi sp) (lo sp) = sp := hi_lo _ h1
+  have e2 : u16 (hi dp) (lo dp) = dp := hi_lo _ h2
+  have e3 : u16 (hi ck) (lo ck) = ck := hi_lo _ h3
+  have e4 : u16 (hi (8 + payload.length)) (lo (8 + payload.length)) = 8 + payload.length := hi_lo _ h4
+  simp only [udpPkt, decodeUDP, e1, e2, e3, e4]
+  simp
+
+theorem udpPkt_length (sp dp ck : Nat) (payload : Buf) :
+    (udpPkt sp dp ck payload).length = 8 + payload.length := by
+  simp [udpPkt]; omega
+
+theorem echoPkt_length (c : ChanCfg) (ck ident seq n : Nat) :
+    (echoPkt c ck ident seq n).length = 8 + n := by
+  simp [echoPkt]; omega
+
+/-- the Paris datagram: checksum field = sequence, payload = the computed checksum -/
+def parisPkt (sp dp seq ck : Nat) : Buf :=
+  [hi sp, lo sp, hi dp, lo dp, hi 10, lo 10, hi seq, lo seq, hi ck, lo ck]
+
+theorem makeUdpParis_spec (c : ChanCfg) (hc : c.AddrOk) (sp dp seq : Nat) :
+    ∃ ck, ck ≤ 0xFFFF ∧ makeUdpParis c sp dp seq = .ok (parisPkt sp dp seq ck) ∧
+      makeUdp c sp dp [hi seq, lo seq] = .ok (ck, udpPkt sp dp ck [hi seq, lo seq]) ∧
+      verifies (pseudoHdr c 17 10 ++ parisPkt sp dp seq ck) := by
+  have hb : 8 + [hi seq, lo seq].length ≤ maxUdpBuf c := by
+    simp only [List.length_cons, List.length_nil]; unfold maxUdpBuf; split <;> decide
+  obtain ⟨ck, h1, h2, h3⟩ := makeUdp_spec c hc sp dp [hi seq, lo seq] hb
+  refine ⟨ck, h1, ?_, h2, ?_⟩
+  · simp [makeUdpParis, h2, parisPkt]
+  · exact verifies_swap _ (pseudoHdr_even c hc 17 10) _ _ _ _ _ _ _ _ _ _ h3
+
 
 end TV.Wire
